@@ -241,6 +241,15 @@ func scriptSnapshotTermChange() []Event {
 	return seq(camp(1), prop(1), isolate(3), prop(1), compact(1, 0), heal(), tick(1), camp(2), prop(2), pauseAppend(3, 0), prop(2), tick(2), prop(2))
 }
 
+// scriptPagination: follower 2 persists a batch of three large entries while the
+// leader's commit index is held back; its application then stops calling Ready while
+// the commit index, a small further entry and that entry's commit index arrive, so the
+// next Ready has to page over a committed range that starts in stable storage (large
+// entries, one per page) and ends in the unstable tail (a small entry that would fit).
+func scriptPagination() []Event {
+	return seq(camp(1), holdFrom(1), propN(1, 3), flush(), prop(1), pauseReady(2, 1), flush(), flush(), flush(), pauseReady(2, 0), prop(1), flush(), prop(1))
+}
+
 // bfsPagination: the leader proposes a batch of three large
 // entries and then a small one; the apply quota admits one large entry (or a large
 // and a small one) per Ready. Ready/apply/Advance are separate steps, so new
@@ -675,6 +684,14 @@ func poolSnapshot(tier string) (p pool) {
 			}(),
 		)
 		p.bfs = append(p.bfs, bfsSnapshot(f, int(BTick), 1), bfsPagination(f, 60))
+		if !f.async {
+			c := f.cfg()
+			c.MaxCommittedSize = 60
+			pg := ddScn("pagination", 3, ids(3), f, scriptPagination(), k, int(BDrop), 1, int(BDup), 1, int(BCrash), 1)
+			pg.Cfg = []NodeCfg{c}
+			pg.PropSizes = []int{30, 1, 1, 1}
+			p.dd = append(p.dd, pg)
+		}
 		{
 			se := tickSnap(ddScn("snapshot+entries", 3, ids(3), f, scriptSnapshotPlusEntries(), k, int(BDrop), 1, int(BDup), 1, int(BCrash), 1))
 			se.SlowSnap = true
